@@ -163,6 +163,9 @@ def stated_amounts(prog, obs, impl):
                     if dumps[op['t']['c']]['cont'] != dict(o['out'])[op['out']]['cont'] or True:
                         am = parse_amounts(impl.env[op['out']].instructions.splitlines()[-1])
                         a = am[0] if am else None
+                elif op['op'] == 'solutionc':
+                    mm = re.match(r"Add (.*) to " + AMOUNT + r" of .+\.$", impl.env[op['out']].instructions)
+                    a = (F(Decimal(mm.group(2))), mm.group(3)) if mm else None
                 elif op['op'] == 'dilute':
                     if dumps[op['v']]['cont'] != dict(o['out'])[op['out']]['cont']:
                         am = parse_amounts(impl.env[op['out']].instructions.splitlines()[-1])
@@ -331,6 +334,8 @@ def run(chk, gate, status):
     from props import C05 as C05m
     for g in C05m.make_cases(sub)[:(30 if not full else 70)]:      # create_solution with a substance or a container as the solvent
         f = instr_oracle(g.prog(), g.obs, g.impl)
+        if any(op['op'] == 'solutionc' and o['ok'] for op, o in zip(g.ops, g.obs)):
+            hist.append((g, bool(f)))       # the stated solvent volume is compared with the model's as well (InstrSol.v)
         nlines += sum(1 for o in g.obs if o['ok'])
         if f:
             nfail += 1
@@ -348,8 +353,8 @@ def run(chk, gate, status):
             if nfail <= 3:
                 chk.violation(f[0], {'recipe': prog, 'failures': f[:5]})
     # the instruction amounts of the same histories on the model (Instr2.v)
-    iterms = [dsl.to_coq(g.prog(), fn='showInstrRun') for g, _ in hist]
-    imodel, ierrors = common.coq_eval('C19i', 'Base Units Contents Container Dilute Solve Plate Prog Instr Instr2', iterms, chunk=6)
+    iterms = [dsl.to_coq(g.prog(), fn='showInstrRun2') for g, _ in hist]
+    imodel, ierrors = common.coq_eval('C19i', 'Base Units Contents Container Dilute Solve Plate Prog Instr Instr2 InstrSol', iterms, chunk=6)
     ninstr = 0
     for (g, failed), m in zip(hist, imodel):
         if m is None:
@@ -365,7 +370,7 @@ def run(chk, gate, status):
             ndis += 1
             if not failed and ndis <= 3:
                 chk.violation('model/implementation disagree: ' + d[0][1],
-                              {'relation': 'Instr2.showInstrRun ~ instruction lines', 'program': dict(g.prog(), ops=g.ops[:d[0][0] + 1]),
+                              {'relation': 'InstrSol.showInstrRun2 ~ instruction lines', 'program': dict(g.prog(), ops=g.ops[:d[0][0] + 1]),
                                'differences': [t for _, t in d[:4]]}, found_input=False)
     errors = errors + ierrors
     if errors:
